@@ -91,7 +91,12 @@ def ob_linear_merge(width, depth, timeout_ms):
              ("no cell wraps: every cell == min(a+b, 2^32-1)", z3.And(*[r == c09.sat_add(x, y) for r, x, y in zip(post.heap[a.cms.sid], pre[a.cms.sid], pre[b.cms.sid])]))]
     assume = list(post.pc) + book.range_constraints()
     funcs = sorted(ex.funcs_encoded)
+    deep = width * depth > 12
+    if deep:
+        goals = goals[2:]  # estimate-level clauses by decomposition (row lemma per row + depth-d glue lemma)
     r, info = cmh.first_failure(assume, goals, timeout_ms, stats, f"_merge_linear saturation {depth}x{width}")
+    if r is None and deep:
+        r, info = cmh.merge_estimate_goals_decomposed(assume, pre, post, a, b, colk, c09.sat_add, timeout_ms, stats, f"_merge_linear saturation {depth}x{width}")
     if r is None:
         return {"status": "proved", "stats": stats.as_dict(), "funcs": funcs}
     if r == "unknown":
